@@ -44,11 +44,12 @@ func sameType(a, b ast.Type) bool {
 
 // sameTypeLoose: sameType, nullability aside, and whether a scalar is a constant aside
 // (an argument of type string assigned to a field that is the constant "fixed" has the
-// field's type; that the field admits one value only is not a typing matter).
+// field's type; that the field admits one value only is not a typing matter), and the
+// hints jennies read (a date-time string is a string) aside.
 func sameTypeLoose(a, b ast.Type) bool {
 	a.Nullable, b.Nullable = false, false
 	strip := func(t ast.Type) string {
-		return toJSON(stripKey(stripKey(stripTrails(toGeneric(t), nil), "Default"), "Value"))
+		return toJSON(stripKey(stripKey(stripKey(stripTrails(toGeneric(t), nil), "Default"), "Value"), "Hints"))
 	}
 	return strip(a) == strip(b)
 }
